@@ -139,6 +139,10 @@ func c01Programs(th bool) []map[string]interface{} {
 		cm["opsets"] = ops
 		out = append(out, cm)
 	}
+	// wide fan-in: a variadic node reading nine and twelve names; a chain of six nodes
+	out = append(out, graphCase([]gnode{{"Concat", "x,y,x,w,y,x,y,w,x", "o", "axis=0"}}, inputs, inits, []string{"o"}, sup))
+	out = append(out, graphCase([]gnode{{"Relu", "x", "a", ""}, {"Concat", "x,y,a,w,y,x,y,w,x,a,a,y", "o", "axis=1"}}, inputs, inits, []string{"o"}, sup))
+	out = append(out, graphCase([]gnode{{"Add", "x,w", "a", ""}, {"Relu", "a", "b", ""}, {"Mul", "b,y", "c", ""}, {"Sub", "c,a", "d", ""}, {"Transpose", "d", "e", "perm=1,0"}, {"MatMul", "e,b", "o", ""}}, inputs, inits, []string{"o", "c"}, sup))
 	// Constant nodes (no inputs) and two Constants with different attributes
 	out = append(out, graphCase([]gnode{{"Constant", "", "c1", "value_float=2"}, {"Constant", "", "c2", "value_float=3"}, {"Mul", "x,c1", "a", ""}, {"Add", "a,c2", "o", ""}}, inputs, inits, []string{"o", "c1", "c2"}, sup))
 	return out
